@@ -49,7 +49,7 @@ def tok_tree(t) -> dict:
     return {"k": kind, "a": a, "b": b, "v": v, "hasv": hasv, "c": children}
 
 
-def err_outcome(e) -> dict:
+def err_outcome(e, src=None) -> dict:
     from liquid2.exceptions import LiquidError
 
     from .replay import error_probe, raise_site
@@ -59,8 +59,19 @@ def err_outcome(e) -> dict:
     tok = getattr(e, "token", None)
     pos = getattr(tok, "start", None) if tok is not None else None
     haspos = isinstance(pos, int) and pos >= 0
-    return {"kind": "liquid", "cls": type(e).__name__, "probe": probe, "haspos": bool(haspos),
-            "pos": int(pos) if haspos else 0}
+    out = {"kind": "liquid", "cls": type(e).__name__, "probe": probe, "haspos": bool(haspos),
+           "pos": int(pos) if haspos else 0, "hasctx": False, "line": 0, "col": 0, "cur": ""}
+    # the line / column / line text the error reports for itself (for the source being recorded only)
+    if haspos and not probe and src is not None and getattr(tok, "source", None) == src:
+        try:
+            ctx = e.context()
+        except Exception:  # noqa: BLE001
+            ctx = None
+        if ctx is not None:
+            cur = deconc(ctx[3])
+            if cur is not None:
+                out.update(hasctx=True, line=int(ctx[0]), col=int(ctx[1]), cur=cur)
+    return out
 
 
 def node_positions_ok(nodes, n: int, depth=0) -> bool:
@@ -81,7 +92,7 @@ def record(model_src: str, rid: str, env, data: dict | None = None) -> dict:
         toks = env.tokenize(src)
         rec["tok"] = dict(ok, tokens=[tok_tree(t) for t in toks])
     except BaseException as e:  # noqa: BLE001
-        rec["tok"] = dict(err_outcome(e), tokens=[])
+        rec["tok"] = dict(err_outcome(e, src), tokens=[])
     rec["nodes_in_source"] = True
     tmpl = None
     try:
@@ -89,13 +100,13 @@ def record(model_src: str, rid: str, env, data: dict | None = None) -> dict:
         rec["parse"] = ok
         rec["nodes_in_source"] = node_positions_ok(tmpl.nodes, len(src))
     except BaseException as e:  # noqa: BLE001
-        rec["parse"] = err_outcome(e)
+        rec["parse"] = err_outcome(e, src)
     rec["render"] = ok
     if tmpl is not None:
         try:
             tmpl.render(**(data or {}))
         except BaseException as e:  # noqa: BLE001
-            rec["render"] = err_outcome(e)
+            rec["render"] = err_outcome(e, src)
     return rec
 
 
